@@ -44,6 +44,90 @@ def neighbor_scores(I, ds, util, K=1, dist=None, y_train=None, y_test=None, prov
     return list(np.asarray(imp.fit(X, np.array(ytr), provenance=provenance).score(Xv, np.array(yte)), dtype=float))
 
 
+def rand_multicand(rng, n_units=None, max_units=6, n_cands=None, explicit_world=None):
+    """explicit map/fork provenance with >= 3 candidates (`Provenance(units=n, candidates=C, data=[[unit, candidate], ...])`): every training row carries ONE
+    literal (unit == candidate) with a non-null candidate, and some unit owns rows under MORE THAN ONE candidate value (alternative versions of a record).
+    world[u] = the candidate unit u takes when it is present (None = the default world of score(): candidate 1 everywhere).  A row belongs to the
+    training set of coalition S iff its unit is in S and its candidate is the world's candidate of that unit ("unit present => its world candidate, absent
+    => candidate 0").  Returns lits (row -> (unit, candidate)), world (None or list), wvals (the world spelt out), present (row -> in the full training set)."""
+    n_units = rng.randint(2, max_units) if n_units is None else n_units
+    n_cands = rng.randint(3, 4) if n_cands is None else n_cands
+    for _ in range(50):
+        lits = []
+        for u in range(n_units):
+            if rng.random() < 0.15:
+                continue                                        # a unit that owns no row at all
+            for c in rng.sample(range(1, n_cands), rng.randint(1, n_cands - 1)):
+                lits.extend([(u, c)] * rng.choice([1, 1, 2]))
+        u0 = rng.randrange(n_units)
+        for c in rng.sample(range(1, n_cands), 2):              # unit u0 surely owns rows under two candidate values
+            if (u0, c) not in lits:
+                lits.append((u0, c))
+        rng.shuffle(lits)
+        explicit = (rng.random() < 0.5) if explicit_world is None else explicit_world
+        world = [rng.randint(1, n_cands - 1) for _ in range(n_units)] if explicit else None
+        wvals = world if world is not None else [1] * n_units
+        present = [c == wvals[u] for u, c in lits]
+        if any(present) and not all(present):
+            break
+    return dict(n_units=n_units, n_cands=n_cands, lits=lits, world=world, wvals=wvals, present=present, n_rows=len(lits))
+
+
+def multicand_prov(I, mc):
+    """the real Provenance object and its description for the model (flat literals; the model's neighbor path knows the default world only)"""
+    prov = I["provenance"].Provenance(units=mc["n_units"], candidates=mc["n_cands"], data=np.array(mc["lits"], dtype=int))
+    preq = {"nUnits": mc["n_units"], "nCands": mc["n_cands"], "exprs": [{"eq": [u, c]} for u, c in mc["lits"]]}
+    return prov, preq
+
+
+def world_arg(rng, mc):
+    """keyword arguments of score() for the world: nothing (default), a list of candidate keys, or an index array"""
+    if mc["world"] is None:
+        return {}
+    return {"world": list(mc["world"])} if rng.random() < 0.5 else {"world": np.array(mc["world"], dtype=int)}
+
+
+def multicand_labels(rng, mc, pool):
+    """labels from `pool`; the rows of the full training set show every class that occurs at all (so 'the classes of the training set' is unambiguous)"""
+    y = [rng.choice(pool) for _ in range(mc["n_rows"])]
+    pres = [r for r in range(mc["n_rows"]) if mc["present"][r]]
+    for k, cl in enumerate(pool[:len(pres)]):
+        if rng.random() < 0.8:
+            y[pres[k]] = cl
+    shown = sorted(set(y[r] for r in pres))
+    if not shown:
+        return y
+    return [y[r] if (mc["present"][r] or y[r] in shown) else rng.choice(shown) for r in range(mc["n_rows"])]
+
+
+def tie_rich_columns(rng, n_rows, m, p_same=0.85):
+    """small-integer distance columns (validation points) with many ties: each column keeps one shared STABLE ranking (np.argsort(kind='stable'): by distance,
+    then by row index) with probability p_same, but the columns differ in their tie pattern - one point is tie-free, the others tie neighbouring rows of the
+    ranking wherever that leaves the stable ranking unchanged.  Returns (n_rows x m float array, number of distinct (ranking, tie pattern) pairs)."""
+    base = list(range(n_rows))
+    if rng.random() < 0.6:
+        rng.shuffle(base)                                       # (the identity ranking allows a tie between any two neighbours)
+    cols, pats = [], set()
+    for j in range(m):
+        pi = list(base)
+        if rng.random() > p_same:
+            rng.shuffle(pi)
+        tie_free = (j == 0)
+        d, cur, pat = [0] * n_rows, rng.randint(0, 2), []
+        for k, r in enumerate(pi):
+            if k > 0:
+                # a zero step keeps the stable ranking only where the row indices ascend
+                step = 0 if (not tie_free and pi[k - 1] < r and rng.random() < 0.7) else rng.randint(1, 2)
+                cur += step
+                pat.append(step == 0)
+            d[r] = cur
+        cols.append(d)
+        pats.add((tuple(pi), tuple(pat)))
+    order = list(range(m))
+    rng.shuffle(order)                                          # the tie-free point is not always first
+    return np.array([cols[j] for j in order], dtype=float).T.copy(), len(pats)
+
+
 def model_req(ds, preq, simple, ureq, K=1, dist=None, y_train=None, y_test=None):
     D = ds["dist"] if dist is None else dist
     return {"op": "neighbor", "prov": preq, "simple": simple, "yTrain": ds["y_train"] if y_train is None else y_train,
